@@ -654,6 +654,11 @@ fn attempt_cell(r: &Resolved, host: usize, at: (u32, u32), e: &Expr, blanks: &[u
         Err(o) => return o,
     };
     let expected = cell_expected(r, host, e);
+    // a position on `host` that no removal deletes (the classifier also hosts variants on
+    // other sheets than the original one)
+    let own = r.edits_on(host);
+    let all: Vec<Edit> = r.edits.iter().map(|(_, e)| *e).collect();
+    let at = (0..200u32).map(|k| (at.0 + k * 7, at.1 + k * 11)).find(|c| survives(*c, &own) && survives(*c, &all)).unwrap_or(at);
     let single = Resolved { sheets: r.sheets.clone(), cells: vec![(host, at, e.clone(), blanks.to_vec())], names: vec![], series: vec![], edits: r.edits.clone(), excluded: vec![] };
     let lib = run_workbook(&single, &[text.clone()]).map(|o| match &o.cells[0] {
         Some(s) => Ok(s.clone()),
